@@ -12,6 +12,7 @@ import Nq.Lemmas.SchedDaemon
 import Nq.Lemmas.SchedHist
 import Nq.Lemmas.SchedSleep
 import Nq.Lemmas.SchedPass
+import Nq.Lemmas.SchedFail
 
 namespace Nq.Props.C15
 open Nq Nq.Sched Nq.Spec.Sched Nq.Lemmas.Sched
@@ -1068,5 +1069,222 @@ example : let s := prun true { h := { lifetime := 604800 } } [.mk 7 .rem 1000 20
     (prun codeNow s (atomicPass .rem 7 [true, true, true] [75, 90, 68])).h.q1.toList = (Nq.SchedHist.step s.h (.pass .rem [75, 90, 68])).1.q1.toList ∧
     ((prun codeNow s (atomicPass .rem 7 [true, true, true] [75, 90, 68])).h.find 7).map (·.recs1) =
       ((Nq.SchedHist.step s.h (.pass .rem [75, 90, 68])).1.find 7).map (·.recs1) := by decide
+
+/-! ## Extension round (session 4): the failure paths as history events (`Nq.SchedFail.fstep`)
+
+`messdone` with its pqdone re-insertion, the "trouble reading" / "unknown record type" exits of `pass_dochan`, `utimes` failure
+in `pqfinish` — added to the atomic-pass history model as further events (`FStep` = every `Step` + `done f` + `passCut c l k` +
+`finF bad`), and the history theorems re-proved over the larger event set.  (`job_close`'s unlink failure is `Fault.unlink`,
+part of `Step.pass` already.) -/
+
+open Nq.SchedFail Nq.Lemmas.SchedFail
+
+/-- **Well-formedness over the larger event set**: every old step, a `messdone` run with ANY failing call, a pass cut short at
+ANY record, `pqfinish` with `utimes` failing on ANY set of files. -/
+theorem C15_fail_wf (s : HSt) (x : FStep) (hwf : WF s) : WF (fstep s x).1 := by
+  cases x with
+  | old y => exact C15_hist_wf s y hwf
+  | done f => exact wf_doneSt hwf f
+  | passCut c l k => exact wf_passCutSt hwf c l k
+  | finF bad => exact wf_finFSt hwf bad
+
+theorem C15_fail_wf_run (l : List FStep) : ∀ s : HSt, WF s → WF (frun s l) := by
+  induction l with
+  | nil => intro s h; exact h
+  | cons x r ih => intro s h; exact ih _ (C15_fail_wf s x h)
+
+/-- **Nothing is lost, with the failure paths.**  `Tracked` (every existing channel file is on its channel heap, every message
+without channel files is in pqdone) is kept by a `messdone` run whatever call fails — a failure puts the message back into
+pqdone, a "false alarm" (channel file still there, HOPEFULLY) drops the pqdone entry of a message that is on a channel heap —,
+by a pass cut short at any record, and is re-established by `pqstart` after an exit with failing `utimes`.  A message record
+disappears from the disk in a `messdone` run only if NO call failed, it had no channel file left and its pqdone entry was due;
+the other new events keep every message record. -/
+theorem C15_fail_noloss (s : HSt) (hwf : WF s) (ht : Tracked s) :
+    (∀ f, Tracked (fstep s (.done f)).1) ∧ (∀ c l k, Tracked (fstep s (.passCut c l k)).1) ∧
+    (∀ bad, Tracked (frun s [.finF bad, .old .load])) ∧
+    (∀ f m, s.find m.id = some m → (fstep s (.done f)).1.find m.id = none →
+      f = .none ∧ m.recs0 = none ∧ m.recs1 = none ∧ ∃ e ∈ s.done.toList, e.id = m.id ∧ e.dt ≤ s.clock) ∧
+    (∀ c l k i m, s.find i = some m → ∃ m', (fstep s (.passCut c l k)).1.find i = some m' ∧ m'.birth = m.birth) ∧
+    (∀ bad, (fstep s (.finF bad)).1.msgs.map (·.id) = s.msgs.map (·.id)) :=
+  ⟨fun f => tracked_doneSt hwf ht f, fun c l k => tracked_passCutSt hwf ht c l k, fun bad => tracked_loadSt (finFSt s bad),
+   fun f m hm hg => doneSt_gone f m hm hg, fun c l k i m hm => passCutSt_ids hwf c l k i m hm,
+   fun bad => (finFSt_spec hwf bad).2.2.2.2.2.1⟩
+
+/-- **`messdone` in full: a failure only delays, earliest-due first.**  The pqdone part of `pass_do()` touches pqdone only when
+its minimum `pe` is due (`pe.dt ≤ clock`, and no entry is due earlier); then pqdone is either the rest (message finished, false
+alarm, or info file already gone) or the rest plus `⟨now + SLEEP_SYSFAIL, pe.id⟩` — strictly in the future —, and after ANY
+failing call (`f ≠ none`) whose message exists without channel files it is the latter: the message is still there and still in
+pqdone.  The channel heaps are never touched. -/
+theorem C15_fail_messdone (s : HSt) (hwf : WF s) (f : MdFault) :
+    (∀ c, (fstep s (.done f)).1.q c = s.q c) ∧
+    (passStart s.clock true s.done = none → (fstep s (.done f)).1 = s) ∧
+    (∀ pe d', passStart s.clock true s.done = some (pe, d') →
+      pe.dt ≤ s.clock ∧ (∀ e ∈ s.done.toList, pe.dt ≤ e.dt) ∧ s.done.toList.Perm (pe :: d'.toList) ∧
+      ((fstep s (.done f)).1.done = d' ∨
+       ((fstep s (.done f)).1.done = d'.insert { dt := s.clock + SLEEP_SYSFAIL, id := pe.id } ∧ s.clock < s.clock + SLEEP_SYSFAIL)) ∧
+      (f ≠ .none → ∀ m, s.find pe.id = some m → m.recs0 = none → m.recs1 = none →
+        (fstep s (.done f)).1.find pe.id = some m ∧
+        (fstep s (.done f)).1.done = d'.insert { dt := s.clock + SLEEP_SYSFAIL, id := pe.id })) := by
+  refine ⟨fun c => ?_, fun hp => doneSt_none f hp, fun pe d' hp => ?_⟩
+  · show (doneSt s f).q c = s.q c
+    cases hp : passStart s.clock true s.done with
+    | none => rw [doneSt_none f hp]
+    | some r =>
+      obtain ⟨pe, d'⟩ := r
+      rw [doneSt_some f hp]
+      rcases messdone_cases (setDone s d') pe.id f with ⟨h, _⟩ | h | ⟨h, _⟩
+      · rw [h, setDone_q]
+      · rw [h, failDone_eq, setDone_q, setDone_q]
+      · rw [h, removeMsg_q, setDone_q]
+  · obtain ⟨_, h1, h2, h3, _⟩ := passStart_spec s.clock true s.done d' pe hwf.heapDone hp
+    have hsf : s.clock < s.clock + SLEEP_SYSFAIL := by
+      have : (0 : Int) < SLEEP_SYSFAIL := by decide
+      omega
+    have hds : (fstep s (.done f)).1 = messdone (setDone s d') pe.id f := doneSt_some f hp
+    rw [hds]
+    refine ⟨h1, h2, h3, ?_, ?_⟩
+    · rcases messdone_cases (setDone s d') pe.id f with ⟨h, _⟩ | h | ⟨h, _⟩
+      · left; rw [h]; rfl
+      · right; rw [h]; exact ⟨rfl, hsf⟩
+      · left; rw [h]; rfl
+    · intro hf m hm n0 n1
+      rcases messdone_cases (setDone s d') pe.id f with ⟨h, hwhy⟩ | h | ⟨_, hnone, _⟩
+      · exfalso
+        rcases hwhy with ⟨t, hs⟩ | ⟨t, hs⟩ | hn
+        · obtain ⟨m2, hm2, hr2⟩ := chanStat_found hs
+          rw [setDone_find, hm] at hm2; cases hm2
+          have : m.recs .loc = none := n0
+          rw [this] at hr2; cases hr2
+        · obtain ⟨m2, hm2, hr2⟩ := chanStat_found hs
+          rw [setDone_find, hm] at hm2; cases hm2
+          have : m.recs .rem = none := n1
+          rw [this] at hr2; cases hr2
+        · rw [setDone_find, hm] at hn; cases hn
+      · rw [h]; exact ⟨hm, rfl⟩
+      · exact absurd hnone hf
+
+/-- **"Trouble reading" / "unknown record type": the pass is cut short, the message comes back at its back-off time.**  A pass
+that starts message `pe.id` (the due minimum of the channel heap: earliest-due first, as for every pass) and cannot read record
+`k` of the channel file re-inserts the message at `nextretry(birth)` — strictly in the future, the quadratic formula — whatever
+was reported for the records before `k`, even if none is left to do; the channel file stays, pqdone and the other channel are
+untouched, nothing else moves. -/
+theorem C15_fail_cut (s : HSt) (hwf : WF s) (c : Chan) (letters : List Byte) (k : Nat) (pe : Elt) (q' : PQ) (m : Msg) (recs : List Bool)
+    (hp : passStart s.clock true (s.q c) = some (pe, q')) (hm : s.find pe.id = some m) (hr : m.recs c = some recs)
+    (hk : k < recs.length) (hage : s.clock - m.birth < 4294967296) :
+    started s c = some pe ∧ pe.dt ≤ s.clock ∧ (∀ e ∈ (s.q c).toList, pe.dt ≤ e.dt) ∧
+    s.clock < nextretry s.clock m.birth c ∧
+    ((fstep s (.passCut c letters k)).1.q c).toList.Perm ({ dt := nextretry s.clock m.birth c, id := pe.id } :: q'.toList) ∧
+    (fstep s (.passCut c letters k)).1.q (other c) = s.q (other c) ∧
+    (fstep s (.passCut c letters k)).1.done = s.done ∧
+    ∃ m', (fstep s (.passCut c letters k)).1.find pe.id = some m' ∧ (m'.recs c).isSome = true ∧
+      m'.recs (other c) = m.recs (other c) := by
+  obtain ⟨h1, h2, _, hh', _, _, _, _⟩ := start_facts hwf hp
+  have hmid : m.id = pe.id := (find_some hm).2
+  refine ⟨by unfold started; rw [hp]; rfl, h1, h2, (C15_future s.clock m.birth c hage).1, ?_⟩
+  show ((passCutSt s c letters k).q c).toList.Perm _ ∧ (passCutSt s c letters k).q (other c) = _ ∧
+    (passCutSt s c letters k).done = _ ∧ ∃ m', (passCutSt s c letters k).find pe.id = some m' ∧ _
+  rw [passCutSt_run letters k hp hm hr hk]
+  refine ⟨by rw [update_q, mkSt_q_same]; exact (insert_spec q' _ hh').2,
+    by rw [update_q, mkSt_q_other _ _ _ _ _ (other_ne c)], by rw [update_done, mkSt_done], ?_⟩
+  refine ⟨cutMsg m c recs k (cutAnswer s c letters k m recs), ?_, by rw [cutMsg_recs_same]; rfl, cutMsg_recs_other ..⟩
+  have := find_update_self (mkSt s c (q'.insert { dt := nextretry s.clock m.birth c, id := pe.id }) s.done)
+    (cutMsg m c recs k (cutAnswer s c letters k m recs)) m (by rw [cutMsg_id, mkSt_find, hmid]; exact hm)
+  rw [cutMsg_id, hmid] at this; exact this
+
+/-- **No early retry, over all quiet histories WITH the failure paths.**  As `C15_hist_backoff`, but the continuation `mid` may also
+contain `messdone` runs with any failing call, passes cut short by trouble reading / an unknown record at any record (on either
+channel, for any message), and TERM + restart where `utimes` FAILS on any files other than this message's channel file
+(`utimesKept`); and the first pass may itself be a cut pass (`first = .passCut`, which always leaves the message to do) instead
+of a completed pass that left a recipient to do.  Whenever `pass_dochan(c)` starts the message again, the entry carries a due time
+`≥ nextretry(t)` and the clock has reached it: none of these failures makes a retry EARLIER.  The excluded case — `utimes`
+failing on this very file — is `C15_fail_utimes` / `C15_fail_utimes_early`. -/
+theorem C15_fail_backoff (s : HSt) (hwf : WF s) (c : Chan) (pe : Elt) (m : Msg) (first : FStep)
+    (hstart : started s c = some pe) (hm : s.find pe.id = some m)
+    (hage : s.clock - m.birth < 4294967296)
+    (hfirst : (∃ letters f, first = .old (.pass c letters f) ∧ f.trouble = false ∧
+                ∃ m2 recs2, (fstep s first).1.find pe.id = some m2 ∧ m2.recs c = some recs2 ∧ true ∈ recs2) ∨
+              (∃ letters k recs, first = .passCut c letters k ∧ m.recs c = some recs ∧ k < recs.length))
+    (mid : List QFStep) (hut : utimesKept c pe.id mid) (pe2 : Elt)
+    (hagain : started (runQF (fstep s first).1 mid) c = some pe2) (hid : pe2.id = pe.id) :
+    s.clock < nextretry s.clock m.birth c ∧ (m.birth ≤ s.clock → IsRetry s.clock m.birth c (nextretry s.clock m.birth c)) ∧
+    nextretry s.clock m.birth c ≤ pe2.dt ∧ pe2.dt ≤ (runQF (fstep s first).1 mid).clock := by
+  obtain ⟨q', hp⟩ := started_some hstart
+  obtain ⟨hfut, hform⟩ := C15_future s.clock m.birth c hage
+  refine ⟨hfut, hform, ?_⟩
+  have hmono : ∀ t', nextretry s.clock m.birth c ≤ t' → nextretry s.clock m.birth c ≤ nextretry t' m.birth c :=
+    fun t' ht => C15_retry_mono s.clock t' m.birth c (by omega)
+  have hsf : 0 ≤ SLEEP_SYSFAIL := Int.natCast_nonneg _
+  have ho : Owed pe.id c m.birth (nextretry s.clock m.birth c) (fstep s first).1 := by
+    rcases hfirst with ⟨letters, f, hf1, hf, m2, recs2, hm2, hr2, ht2⟩ | ⟨letters, k, recs, hf1, hr, hk⟩
+    · subst hf1
+      exact owed_init hwf letters hp hm hf (by
+        intro m3 hm3 recs3 hr3
+        have h1 : m3 = m2 := by
+          have : some m3 = some m2 := by rw [← hm3]; exact hm2
+          exact Option.some.inj this
+        subst h1
+        rw [hr2] at hr3; cases hr3; exact ht2)
+    · subst hf1
+      exact owed_init_cut hwf letters k hp hm hr hk
+  obtain ⟨hwf3, ho3⟩ := owed_runQF hmono hsf mid _ (C15_fail_wf s first hwf) ho hut
+  obtain ⟨q2, hp2⟩ := started_some hagain
+  obtain ⟨hdue2, _, _, _, hmem2, _, _, m3, recs3, hm3, hr3⟩ := start_facts hwf3 hp2
+  obtain ⟨_, h2⟩ := ho3 m3 (hid ▸ hm3)
+  obtain ⟨e, he, hei, hre⟩ := h2 (by rw [hr3]; rfl)
+  have : e = pe2 := eq_of_nodup_map (fun x : Elt => x.id) _ (by have := hwf3.nodupQ c; unfold ids at this; exact this) e he pe2 hmem2 (by rw [hei, hid])
+  subst this
+  exact ⟨hre, hdue2⟩
+
+/-- **What a failing `utimes` at exit does to the schedule after the restart** (what the code really does; its own warning says
+"message will be retried too soon").  After TERM (`pqfinish` with `utimes` failing on the files in `bad`) and a new process
+(`pqstart`), channel `c` holds exactly one entry per entry it held before, for the same message; where `utimes` succeeded it has
+the same due time (the schedule survives), where it FAILED the entry carries the mtime the channel file had BEFORE the exit — the
+time of the last successful `utimes`, of the file's creation, or of the last `markdone` write — and NOT the due time in the heap.
+Nothing is lost either way. -/
+theorem C15_fail_utimes (s : HSt) (hwf : WF s) (ht : Tracked s) (bad : List (Chan × Nat)) (c : Chan) (e : Elt) :
+    e ∈ ((frun s [.finF bad, .old .load]).q c).toList ↔
+      ∃ e0 ∈ (s.q c).toList, e0.id = e.id ∧
+        (((c, e.id) ∉ bad ∧ e.dt = e0.dt) ∨ ((c, e.id) ∈ bad ∧ ∃ m, s.find e.id = some m ∧ e.dt = m.mt c)) :=
+  restartF_mem hwf ht bad c e
+
+def exF : HSt := run { lifetime := 604800 } [.mk 7 .loc 1000 2000 2, .load, .clock 2000]
+def exF1 : HSt := (fstep exF (.old (.pass .loc [90]))).1
+
+/-- **Complement of `C15_fail_backoff` (the clause "the schedule survives a clean restart" does NOT hold under a failing utimes)**,
+by evaluation: message 7 (born 1000) is deferred at 2000, its back-off time is 2000 + … = `nextretry 2000 1000 loc` = 2681 and it
+is scheduled there; TERM with `utimes` failing on local/7, restart: the entry is back at the file's old mtime 2000 and the very
+next pass — one second after the deferral — starts it again, 680 s before its back-off time.  With `utimes` succeeding it stays
+at 2681. -/
+theorem C15_fail_utimes_early :
+    exF1.q0.toList = [⟨2681, 7⟩] ∧ nextretry 2000 1000 .loc = 2681 ∧
+    (frun exF1 [.finF [(.loc, 7)], .old .load]).q0.toList = [⟨2000, 7⟩] ∧
+    started (frun exF1 [.finF [(.loc, 7)], .old .load, .old (.clock 2001)]) .loc = some ⟨2000, 7⟩ ∧
+    (frun exF1 [.finF [], .old .load]).q0.toList = [⟨2681, 7⟩] ∧
+    started (frun exF1 [.finF [], .old .load, .old (.clock 2001)]) .loc = none := by decide
+
+/-- non-vacuity / what the new events do on concrete states -/
+example : WF exF ∧ Tracked exF := by
+  refine ⟨C15_hist_wf_run _ _ ⟨fun c => by cases c <;> exact heap_empty, heap_empty, List.nodup_nil,
+    fun c => by cases c <;> exact List.nodup_nil, fun c e he => by cases c <;> cases he⟩, ?_⟩
+  exact tracked_tick (tracked_loadSt _) 2000
+/-- a cut pass: record 1 unreadable, record 0 delivered: back at 2681 although … one 'T' is left; with k = 0 nothing is tried -/
+example : ((fstep exF (.passCut .loc [75] 1)).1.q0.toList = [⟨2681, 7⟩]) ∧
+    ((fstep exF (.passCut .loc [75] 1)).1.find 7).map (·.recs0) = some (some [false, true]) ∧
+    ((fstep exF (.passCut .loc [75] 0)).1.q0.toList = [⟨2681, 7⟩]) ∧
+    ((fstep exF (.passCut .loc [75] 0)).1.find 7).map (·.recs0) = some (some [true, true]) := by decide
+/-- messdone: message 7 finishes (both delivered) → pqdone at 2000; messdone with a failing unlink of info/7 → back into pqdone at
+2123, message still on disk; without failure → gone from disk, pqdone empty; not yet due → nothing happens -/
+example : let s := (fstep exF (.old (.pass .loc [75]))).1
+    s.done.toList = [⟨2000, 7⟩] ∧ (fstep s (.done .unlinkInfo)).1.done.toList = [⟨2123, 7⟩] ∧
+    ((fstep s (.done .unlinkInfo)).1.find 7).isSome = true ∧
+    (fstep s (.done .none)).1.done.toList = [] ∧ ((fstep s (.done .none)).1.find 7).isNone = true ∧
+    (frun s [.done .statLoc, .done .none]).done.toList = [⟨2123, 7⟩] ∧
+    (frun s [.done .bounce, .old (.clock 2123), .done .none]).msgs.length = 0 := by decide
+example : utimesKept .loc 7 [.restartF [(.rem, 7), (.loc, 9)], .done .statTodo, .passCut .rem [90] 0, .q (.clock 5)] := by
+  intro bad hb
+  simp only [List.mem_cons, List.mem_nil_iff, or_false] at hb
+  rcases hb with h | h | h | h
+  · cases h; decide
+  all_goals cases h
 
 end Nq.Props.C15
